@@ -438,6 +438,7 @@ type Contract struct {
 	BodyText string
 	Sort     string // fun result sort, ghost var sort
 	NoPanic  bool
+	MayPanic bool // trusted external function that can panic on some inputs: callers must recover
 	Pure     bool
 	Opaque   bool
 	File     string
@@ -450,7 +451,7 @@ type Contract struct {
 }
 
 var headRe = regexp.MustCompile(`^(func|trusted func|loop|pred|fun|lemma|axiom|ghost var|ghost field|chan|guarded|sort|assume-call|callsite|implements|immutable)\s+(.*)$`)
-var clauseRe = regexp.MustCompile(`^(requires|ensures|invariant|modifies|records|reveals|nopanic|pure|opaque|induction|note)\b\s*(.*)$`)
+var clauseRe = regexp.MustCompile(`^(requires|ensures|invariant|modifies|records|reveals|nopanic|maypanic|pure|opaque|induction|note)\b\s*(.*)$`)
 
 // splitParams splits "a int, b []T" at top-level commas into name/type pairs.
 func splitParams(s string) []Param {
@@ -735,6 +736,8 @@ func ParseContractFile(path, pkgPath string) ([]*Contract, error) {
 				}
 			case "nopanic":
 				cur.NoPanic = true
+			case "maypanic":
+				cur.MayPanic = true
 			case "pure":
 				cur.Pure = true
 			case "opaque":
